@@ -5,3 +5,5 @@ cd /verif/tools
 export GOFLAGS=-mod=mod GOPROXY=off GOSUMDB=off GOTOOLCHAIN=local
 cp /repo/go.sum go.sum
 go1.26.8 run -tags verif ./tablegen /verif/coq/theories/Gen/Tables.v
+# lock-set scan (default go: golang.org/x/tools v0.29.0 from the module cache)
+go run ./lockscan /verif/coq/theories/Gen/Access.v
